@@ -278,26 +278,27 @@ Proof.
   unfold C05Model.g_poly. destruct (d =? 1); [auto|rewrite vscale_length; auto].
 Qed.
 
-Lemma mono_pair d x dx z : length x = length dx -> (d <> 1%nat \/ dotA x z <> 0) ->
+Lemma mono_pair d x dx z : length x = length dx ->
   snd (k_mono D dzero done dadd dmul d (combine x dx) (cstv z)) = dotA (g_mono A zero one add mul div isz d x z) dx.
 Proof.
-  intros L H. unfold C05Model.k_mono, C05Model.g_mono.
+  intros L. unfold C05Model.k_mono, C05Model.g_mono.
   destruct (dotD_var x dx z L) as [E1 E2].
   destruct (powD_spec (dotD (combine x dx) (cstv z)) d) as [_ E]. rewrite E, E1, E2.
-  rewrite (dot_sym A zero one add mul sub div opp inv le OF dx z), dot_vscale.
-  destruct d as [|d]; [simpl; ring|].
-  rewrite safe_div_pow; [ring|lia|]. destruct H as [H|H]; [right; lia|left; auto].
+  rewrite (dot_sym A zero one add mul sub div opp inv le OF dx z).
+  destruct (Nat.eqb_spec d 1) as [->|N1].
+  - simpl. ring.
+  - rewrite dot_vscale. destruct d as [|d]; [simpl; ring|].
+    rewrite safe_div_pow; [ring|lia|]. right; lia.
 Qed.
 
+(* full statement (no side condition since the repair of MonomialKernel, /repo commit 114dbcf3) *)
 Theorem wid_mono_correct n d C X1 dX1 X2 : shapes n C X1 dX1 X2 ->
-  (d <> 1%nat \/ Forall (fun x => Forall (fun z => dotA x z <> 0) X2) X1) ->
   wsumD (k_mono D dzero done dadd dmul d) C X1 dX1 X2
   = wid_dot (wid A zero add mul n (g_mono A zero one add mul div isz d) C X1 X2) dX1.
 Proof.
-  intros S H. apply wid_general; auto. intros x dx z Hx Hz Lx Ldx Lz. split.
-  - apply mono_pair; [congruence|]. destruct H as [H|H]; [left; auto|right].
-    rewrite Forall_forall in H. specialize (H x Hx). rewrite Forall_forall in H. auto.
-  - unfold C05Model.g_mono. rewrite vscale_length. auto.
+  intros S. apply wid_general; auto. intros x dx z Hx Hz Lx Ldx Lz. split.
+  - apply mono_pair; congruence.
+  - unfold C05Model.g_mono. destruct (d =? 1); [auto|rewrite vscale_length; auto].
 Qed.
 
 Lemma zipw_length (f : A -> A -> A) u : forall v, length u = length v -> length (zipw A f u v) = length u.
@@ -341,15 +342,18 @@ Proof.
   unfold C05Model.k_gauss. ring.
 Qed.
 
-Theorem mono1_refuted :
+(* regression: the gradient as coded BEFORE the repair was 0 at orthogonal points for degree 1, the true one is z *)
+Theorem mono1_old_refuted :
   let x := [one; zero] in let z := [zero; one] in let dx := [zero; one] in
   snd (k_mono D dzero done dadd dmul 1 (combine x dx) (cstv z)) = one /\
-  dotA (g_mono A zero one add mul div isz 1 x z) dx = zero.
+  dotA (g_mono_old A zero one add mul div isz 1 x z) dx = zero /\
+  dotA (g_mono A zero one add mul div isz 1 x z) dx = one.
 Proof.
-  cbv zeta. split; [unfold C05Model.k_mono; simpl; ring|].
-  unfold C05Model.g_mono, C05Model.safe_div.
-  assert (E : dotA [one; zero] [zero; one] = 0) by (simpl; ring). rewrite E.
-  assert (Z : isz 0 = true) by (apply isz_spec; auto). rewrite Z. simpl. ring.
+  cbv zeta. split; [unfold C05Model.k_mono; simpl; ring|]. split.
+  - unfold C05Model.g_mono_old, C05Model.safe_div.
+    assert (E : dotA [one; zero] [zero; one] = 0) by (simpl; ring). rewrite E.
+    assert (Z : isz 0 = true) by (apply isz_spec; auto). rewrite Z. simpl. ring.
+  - unfold C05Model.g_mono. simpl. ring.
 Qed.
 
 (* ------------------------------------------------------------------ point-set kernel *)
